@@ -47,7 +47,7 @@ FlagsOf(n)  == IF n <= DenseMax THEN {FlagSeq[i] : i \in 1..4} ELSE {FlagSeq[(n 
 
 SweepInit == /\ \E n \in SweepMin..SweepMax : \E shape \in ShapesOf(n) : \E f \in FlagsOf(n) :
                   /\ flags = f /\ tags = TagsOf(shape, n) /\ fam = "sweep-" \o shape
-             /\ mpc = "hdr" /\ written = 0 /\ file = <<>> /\ avail = 0
+             /\ mpc = "hdr" /\ written = 0 /\ file = <<>> /\ avail = 0 /\ arena = <<>> /\ eofWith = FALSE
              /\ dpc = "hdr" /\ pos = 0 /\ pending = [t |-> 0, n |-> 0, ts |-> <<0, 0>>]
              /\ hdrOut = [sig |-> FALSE, version |-> 0, video |-> FALSE, audio |-> FALSE]
              /\ got = <<>>
